@@ -21,7 +21,7 @@ func (c18) Level() string { return "exploration" }
 func (c18) Procs() int    { return 2 }
 func (c18) Budget(tier string) (int, int) {
 	if tier == "thorough" {
-		return 3000000, 480
+		return 30000000, 480
 	}
 	return 400000, 20
 }
